@@ -66,6 +66,14 @@ pub fn k_for(axis: &Axis) -> f64 {
 }
 
 /// The boundary configurations of the alphabet for `nl` lanes.
+/// the configurations whose derivative values are coarse dyadic numbers (exact in f32 and under the
+/// unit conversions of C15)
+pub fn bc_configs_coarse(nl: usize, n: usize) -> Vec<BcSpec> {
+    let mut v = bc_configs(nl, n);
+    v.pop();
+    v
+}
+
 pub fn bc_configs(nl: usize, n: usize) -> Vec<BcSpec> {
     let mut v = vec![
         BcSpec::TopNotAKnot,
@@ -88,6 +96,9 @@ pub fn bc_configs(nl: usize, n: usize) -> Vec<BcSpec> {
     v.push(BcSpec::Lanes((0..l).map(|j| (End::First(0.25 * (j % 7) as f64 - 0.75), End::First(0.5 - 0.125 * (j % 5) as f64))).collect()));
     v.push(BcSpec::Lanes((0..l).map(|j| (End::Second((j % 4) as f64 - 2.0), End::Second(0.5 * (j % 3) as f64 + 0.5))).collect()));
     v.push(BcSpec::Lanes((0..l).map(|j| (End::First(1.0 - 0.5 * (j % 4) as f64), End::Second(0.25 * (j % 6) as f64 - 0.5))).collect()));
+    // derivative values that differ only far below single precision (2^-30 relative)
+    let tiny = 2.0f64.powi(-30);
+    v.push(BcSpec::Lanes((0..l).map(|j| (End::First(0.5 * (1.0 + tiny * (j % 3) as f64)), End::Second(-2.0 * (1.0 + tiny * (j % 4) as f64)))).collect()));
     let _ = n;
     v
 }
@@ -324,7 +335,7 @@ pub fn run_spline_job_t<T: Fl>(job: &SplineJob, want: Want, out: &mut JobOut) {
                 .max(p.b.abs());
         }
         // the exact reference, when in reach
-        let rs = if want.exact && n <= want.exact_max_n {
+        let rs = if want.exact && n <= want.exact_max_n && !job.nearly_closed {
             let yr: Vec<Rat> = lane.y.iter().map(|&v| Rat::from_f64(v)).collect();
             Some(RefSpline::solve(&axis.rat(), &yr, cond))
         } else {
